@@ -670,7 +670,8 @@ def prop_names(ctx: Ctx, I: Interp) -> None:
                         or (e.kind == "call" and getattr(e.target, "qual", "").endswith("__setitem__")):
                     key, val = (e.key, e.value) if e.kind == "store_item" else (e.value[0], e.value[1]) if e.value and len(e.value) == 2 else (None, None)
                     n += 1
-                    ctx.check(key is not k_, "C20.name", "update() stores each prop under its normalised name", where, f"stores under {short(key)}",
+                    through_setitem = e.kind == "call"      # self[k] = v: the class's own __setitem__ normalises the name
+                    ctx.check(key is not k_ or through_setitem, "C20.name", "update() stores each prop under its normalised name", where, f"stores under {short(key)}",
                               f"update()/the constructor store a prop under the name as given ({short(key)}), not under its normalised form",
                               witness="Foo(class_='a')")
                     ctx.check(val is v_, "C20.name", "update() stores each prop value as given", where, f"stores {short(val)}",
